@@ -664,7 +664,9 @@ class IteratorQueue(IterableQueue[_ValueT]):
           ) from e
         except Exception as e:  # pylint: disable=broad-exception-caught
           exhausted = is_stop_iteration(e)
-          if (exhausted and result) or (not exhausted and self.ignore_error):
+          # Returns the elements already dequeued first, the (persistent)
+          # exception is raised by the next call.
+          if result or (not exhausted and self.ignore_error):
             break
           raise e
     with self._enqueue_lock:
